@@ -21,21 +21,68 @@ Proof.
   destruct (not_matching l t) eqn:E; [|discriminate]. rewrite (not_matching_filter p l t E). reflexivity.
 Qed.
 
-Lemma filter_lt34_fix l r : filter_lt34 l = Ok r -> filter_lt34 r = Ok r /\ val_in (VPair 3 4) r = false.
+Lemma all_known_sub l t : all_known l t = Ok tt -> sub_tab l t = true.
+Proof.
+  unfold all_known, sub_tab, not_matching. intros H. apply guard_ok in H.
+  induction l as [|x xs IH]; cbn [forallb filter] in *; auto.
+  destruct (in_tab x t); cbn [negb] in *; [apply IH; exact H|discriminate H].
+Qed.
+
+Lemma sub_all_known l t : sub_tab l t = true -> all_known l t = Ok tt.
+Proof.
+  unfold all_known, sub_tab, not_matching. intros H. apply guard_ok.
+  induction l as [|x xs IH]; cbn [forallb filter] in *; auto.
+  apply andb_true_iff in H. destruct H as [H1 H2]. rewrite H1. cbn [negb]. apply IH. exact H2.
+Qed.
+
+(* the clipping of `versions` to [minVersion, maxVersion] *)
+Lemma filter_range_fix lo hi l r : filter_range lo hi l = Ok r -> filter_range lo hi r = Ok r.
 Proof.
   revert r. induction l as [|x xs IH]; intros r H.
-  - injection H as <-. auto.
-  - destruct x; try discriminate H. cbn [filter_lt34] in H.
-    destruct (filter_lt34 xs) as [r'|]; [|discriminate H]. cbn [bind] in H. injection H as <-.
-    destruct (IH r' eq_refl) as [I1 I2].
-    destruct (ver_lt (a, b) (3, 4)) eqn:E; [|auto].
-    split.
-    + cbn [filter_lt34]. rewrite I1. cbn [bind]. rewrite E. reflexivity.
-    + cbn [val_in existsb py_eq]. fold (val_in (VPair 3 4) r'). rewrite I2.
-      unfold ver_lt in E. cbn [fst snd] in E.
-      destruct (3 =? a) eqn:E3; [|reflexivity]. apply Z.eqb_eq in E3. subst a.
-      destruct (4 =? b) eqn:E4; [|reflexivity]. apply Z.eqb_eq in E4. subst b. discriminate E.
+  - injection H as <-. reflexivity.
+  - destruct x; try discriminate H. cbn [filter_range] in H.
+    destruct (filter_range lo hi xs) as [r'|]; [|discriminate H]. cbn [bind] in H. injection H as <-.
+    specialize (IH r' eq_refl). destruct (in_range lo hi a b) eqn:E; [|exact IH].
+    cbn [filter_range]. rewrite IH. cbn [bind]. rewrite E. reflexivity.
 Qed.
+
+Lemma filter_range_in lo hi l r a b :
+  filter_range lo hi l = Ok r -> val_in (VPair a b) r = val_in (VPair a b) l && in_range lo hi a b.
+Proof.
+  revert r. induction l as [|x xs IH]; intros r H.
+  - injection H as <-. reflexivity.
+  - destruct x; try discriminate H. cbn [filter_range] in H.
+    destruct (filter_range lo hi xs) as [r'|]; [|discriminate H]. cbn [bind] in H. injection H as <-.
+    specialize (IH r' eq_refl). unfold val_in in *. cbn [existsb py_eq].
+    destruct ((a =? a0) && (b =? b0)) eqn:Eq.
+    + apply andb_true_iff in Eq. destruct Eq as [E1 E2]. apply Z.eqb_eq in E1. apply Z.eqb_eq in E2. subst a0 b0.
+      cbn [orb]. destruct (in_range lo hi a b) eqn:E.
+      * cbn [existsb py_eq]. rewrite !Z.eqb_refl. reflexivity.
+      * rewrite IH. rewrite andb_false_r. reflexivity.
+    + cbn [orb]. destruct (in_range lo hi a0 b0); [cbn [existsb py_eq]; rewrite Eq|]; exact IH.
+Qed.
+
+Lemma in_range_34_33 lo hi : in_range lo hi 3 4 = true -> ver_le lo (3, 3) = true -> in_range lo hi 3 3 = true.
+Proof.
+  unfold in_range, ver_le, ver_lt. destruct lo as [l1 l2], hi as [h1 h2]. cbn [fst snd].
+  intros H L. apply andb_true_iff in H. destruct H as [_ H]. rewrite L. cbn [andb].
+  apply negb_true_iff in H. apply negb_true_iff. apply orb_false_iff in H. destruct H as [H1 H2].
+  rewrite H1. cbn [orb]. destruct (h1 =? 3) eqn:E; [|reflexivity]. cbn [andb] in *.
+  apply Z.ltb_ge in H2. apply Z.ltb_ge. lia.
+Qed.
+
+(* the rule of _sanityCheckECDHSettings: TLS 1.3 enabled without TLS 1.2 => only RFC 8446 groups *)
+Definition tls13_only_rule (T : tables) (versions curves : list val) : bool :=
+  if negb (val_in (VPair 3 3) versions) && val_in (VPair 3 4) versions
+  then sub_tab curves (t_tls13_groups T) else true.
+
+(* validate() evaluates that rule on `versions` BEFORE clipping it; the object is stable when the rule also
+   holds for the clipped list *)
+Definition clip_stable (T : tables) (v : list (list val)) (c : scalars) : bool :=
+  match filter_range (minVersion c) (maxVersion c) (nth F_versions v []) with
+  | Ok y => tls13_only_rule T y (nth F_eccCurves v [])
+  | Err _ => true
+  end.
 
 Section Core.
 Variable T : tables.
@@ -104,10 +151,10 @@ Lemma res_unit_ok (m : res unit) y : m = Ok y -> m = Ok tt.
 Proof. destruct y. auto. Qed.
 
 (* first block of checks is stable under shrinking the three name lists and under a versions list
-   that either is the same or no longer contains (3,4) *)
+   for which the TLS 1.3-only group rule holds *)
 Lemma A_stable x0 x1 x3 x4 p0 p1 p3 y4 :
   cchecks_A T (V x0 x1 x3 x4) c = Ok tt ->
-  (y4 = x4 \/ val_in (VPair 3 4) y4 = false) ->
+  ecdh_tail (V x0 x1 x3 y4) = Ok tt ->
   cchecks_A T (V (filter p0 x0) (filter p1 x1) (filter p3 x3) y4) c = Ok tt.
 Proof.
   unfold cchecks_A. intros H Hy.
@@ -140,8 +187,7 @@ Proof.
     rewrite (indep_head _ _ _ _ x0 x1 x3 x4), D1. cbn [bind].
     rewrite (indep_dhrest _ _ _ _ x0 x1 x3 x4), D3.
     assert (TL : ecdh_tail (V (filter p0 x0) (filter p1 x1) (filter p3 x3) y4) = Ok tt); [|rewrite TL; reflexivity].
-    destruct Hy as [->|Hy]; [exact D2|].
-    unfold ecdh_tail. cbn [nth V F_versions]. rewrite Hy, andb_false_r. reflexivity. }
+    exact Hy. }
   rewrite DH. cbn [bind]. rewrite (indep_rest _ _ _ _ x0 x1 x3 x4). exact C3.
 Qed.
 
@@ -152,22 +198,28 @@ Proof. reflexivity. Qed.
 Lemma nth_cn_V a0 a1 a3 a4 : nth F_cipherNames (V a0 a1 a3 a4) [] = a0.
 Proof. reflexivity. Qed.
 
+Lemma ecdh_tail_rule a0 a1 a3 y4 : ecdh_tail (V a0 a1 a3 y4) = Ok tt <-> tls13_only_rule T y4 x17 = true.
+Proof.
+  unfold ecdh_tail, tls13_only_rule. cbn [nth V F_versions F_eccCurves].
+  destruct (negb (val_in (VPair 3 3) y4) && val_in (VPair 3 4) y4); [|split; reflexivity].
+  split; [apply all_known_sub|apply sub_all_known].
+Qed.
+
 Lemma idem_V x0 x1 x3 x4 v' :
+  clip_stable T (V x0 x1 x3 x4) c = true ->
   cvalidate T I (V x0 x1 x3 x4) c = Ok v' -> cvalidate T I v' c = Ok v'.
 Proof.
-  unfold cvalidate at 1. intros H.
+  intros CS. unfold cvalidate at 1. intros H.
   destruct (cchecks_A T (V x0 x1 x3 x4) c) as [[]|] eqn:EA; [|discriminate H].
   (* versions *)
   assert (SV : (exists y4, cstep_versions (V x0 x1 x3 x4) c = Ok (V x0 x1 x3 y4) /\
-                          (y4 = x4 \/ val_in (VPair 3 4) y4 = false) /\
+                          ecdh_tail (V x0 x1 x3 y4) = Ok tt /\
                           (forall a0 a1 a3, cstep_versions (V a0 a1 a3 y4) c = Ok (V a0 a1 a3 y4)))
                \/ exists e, cstep_versions (V x0 x1 x3 x4) c = Err e).
-  { unfold cstep_versions. cbn [nth V F_versions lupd].
-    destruct (ver_lt (maxVersion c) (3, 4)).
-    - destruct (filter_lt34 x4) as [l|e] eqn:FL; [|right; exists e; reflexivity].
-      destruct (filter_lt34_fix x4 l FL) as [F1 F2].
-      left. exists l. split; [reflexivity|]. split; [right; exact F2|]. intros. rewrite F1. reflexivity.
-    - left. exists x4. split; [reflexivity|]. split; [left; reflexivity|]. reflexivity. }
+  { unfold clip_stable in CS. unfold cstep_versions. cbn [nth V F_versions F_eccCurves lupd] in *.
+    destruct (filter_range (minVersion c) (maxVersion c) x4) as [l|e] eqn:FL; [|right; exists e; reflexivity].
+    left. exists l. split; [reflexivity|]. split; [apply ecdh_tail_rule; exact CS|].
+    intros. rewrite (filter_range_fix _ _ _ _ FL). reflexivity. }
   destruct SV as [[y4 [SV [Hy SVfix]]]|[e SV]]; rewrite SV in H; [|discriminate H].
   destruct (sanityCheckExtensions T (V x0 x1 x3 y4) c) as [[]|] eqn:EE; [|discriminate H].
   (* macNames *)
@@ -207,26 +259,63 @@ Qed.
 End Core.
 
 Lemma cvalidate_idem T I v c v' :
-  List.length v = NF -> cvalidate T I v c = Ok v' -> cvalidate T I v' c = Ok v'.
+  List.length v = NF -> clip_stable T v c = true -> cvalidate T I v c = Ok v' -> cvalidate T I v' c = Ok v'.
 Proof.
-  intros Len H.
+  intros Len CS H.
   destruct v as [|x0 [|x1 [|x2 [|x3 [|x4 [|x5 [|x6 [|x7 [|x8 [|x9 [|x10 [|x11 [|x12 [|x13 [|x14 [|x15 [|x16
                [|x17 [|x18 [|x19 [|x20 [|x21 [|x22 r]]]]]]]]]]]]]]]]]]]]]]]; try discriminate Len.
-  exact (idem_V T I c x2 x5 x6 x7 x8 x9 x10 x11 x12 x13 x14 x15 x16 x17 x18 x19 x20 x21 x0 x1 x3 x4 v' H).
+  exact (idem_V T I c x2 x5 x6 x7 x8 x9 x10 x11 x12 x13 x14 x15 x16 x17 x18 x19 x20 x21 x0 x1 x3 x4 v' CS H).
+Qed.
+
+(* clip_stable holds whenever TLS 1.2 or lower stays enabled (minVersion <= (3,3)) *)
+Lemma clip_stable_tls12 T I v c v' :
+  List.length v = NF -> ver_le (minVersion c) (3, 3) = true -> cvalidate T I v c = Ok v' -> clip_stable T v c = true.
+Proof.
+  intros Len Lo H.
+  destruct v as [|x0 [|x1 [|x2 [|x3 [|x4 [|x5 [|x6 [|x7 [|x8 [|x9 [|x10 [|x11 [|x12 [|x13 [|x14 [|x15 [|x16
+               [|x17 [|x18 [|x19 [|x20 [|x21 [|x22 r]]]]]]]]]]]]]]]]]]]]]]]; try discriminate Len.
+  change [x0; x1; x2; x3; x4; x5; x6; x7; x8; x9; x10; x11; x12; x13; x14; x15; x16; x17; x18; x19; x20; x21]
+    with (V x2 x5 x6 x7 x8 x9 x10 x11 x12 x13 x14 x15 x16 x17 x18 x19 x20 x21 x0 x1 x3 x4) in *.
+  unfold cvalidate in H.
+  destruct (cchecks_A T (V x2 x5 x6 x7 x8 x9 x10 x11 x12 x13 x14 x15 x16 x17 x18 x19 x20 x21 x0 x1 x3 x4) c) as [[]|] eqn:EA;
+    [|discriminate H]. clear H.
+  unfold cchecks_A in EA.
+  apply bind_ok in EA. destruct EA as [[] [_ EA]]. apply bind_ok in EA. destruct EA as [[] [_ EA]].
+  apply bind_ok in EA. destruct EA as [[] [EP _]].
+  rewrite prim_unfold in EP. apply bind_ok in EP. destruct EP as [[] [_ EP]]. apply bind_ok in EP. destruct EP as [[] [ED _]].
+  rewrite dh_unfold in ED. apply bind_ok in ED. destruct ED as [[] [_ ED]]. apply bind_ok in ED. destruct ED as [[] [ET _]].
+  apply ecdh_tail_rule in ET.
+  unfold clip_stable. cbn [nth V F_versions F_eccCurves].
+  destruct (filter_range (minVersion c) (maxVersion c) x4) as [y|e] eqn:FL; [|reflexivity].
+  unfold tls13_only_rule in *.
+  rewrite (filter_range_in _ _ _ _ 3 3 FL), (filter_range_in _ _ _ _ 3 4 FL).
+  destruct (val_in (VPair 3 4) x4) eqn:V34; cbn [andb]; [|rewrite andb_false_r; reflexivity].
+  destruct (in_range (minVersion c) (maxVersion c) 3 4) eqn:R34; [|rewrite andb_false_r; reflexivity].
+  rewrite (in_range_34_33 _ _ R34 Lo), andb_true_r.
+  destruct (val_in (VPair 3 3) x4); cbn [negb andb] in *; [reflexivity|exact ET].
 Qed.
 
 (* ---- idempotence of the by-reference model ---------------------------------------------------- *)
 Lemma validate_idempotent_heap T I h s h1 s1 :
-  wf h s = true -> validate T I h s = (h1, Ok s1) ->
+  wf h s = true -> clip_stable T (lists h s) (sc s) = true -> validate T I h s = (h1, Ok s1) ->
   exists h2 s2, validate T I h1 s1 = (h2, Ok s2) /\ view h2 s2 = view h1 s1.
 Proof.
-  intros W H.
+  intros W CS H.
   pose proof (validate_refines T I h s W) as R. rewrite H in R. destruct R as [R1 [R2 R3]].
   pose proof (validate_refines T I h1 s1 R3) as R'.
   assert (Len : List.length (lists h s) = NF) by (rewrite lists_length; apply (wf_length h s W)).
-  pose proof (cvalidate_idem T I _ _ _ Len R1) as Id. rewrite <- R2 in Id.
+  pose proof (cvalidate_idem T I _ _ _ Len CS R1) as Id. rewrite <- R2 in Id.
   destruct (validate T I h1 s1) as [h2 [s2|e]].
   - exists h2, s2. split; [reflexivity|]. destruct R' as [A [B _]]. rewrite Id in A. injection A as A.
     unfold view. rewrite <- A, B. reflexivity.
   - rewrite Id in R'. discriminate R'.
+Qed.
+
+Lemma validate_idempotent_heap_tls12 T I h s h1 s1 :
+  wf h s = true -> ver_le (minVersion (sc s)) (3, 3) = true -> validate T I h s = (h1, Ok s1) ->
+  exists h2 s2, validate T I h1 s1 = (h2, Ok s2) /\ view h2 s2 = view h1 s1.
+Proof.
+  intros W Lo H. eapply validate_idempotent_heap; [exact W| |exact H].
+  pose proof (validate_refines T I h s W) as R. rewrite H in R. destruct R as [R1 _].
+  eapply clip_stable_tls12; [|exact Lo|exact R1]. rewrite lists_length. apply (wf_length h s W).
 Qed.
